@@ -35,7 +35,7 @@ PROPS = {
     'C05': {
         'ops': [('aggregate', 1500, 40000)],
         'corr': ['corr:ids', 'corr:panic'],
-        'prop': ['C05'],
+        'prop': ['C05', 'C06:aggregate'],
         'nontrivial': ['multi', 'merged'],
         'input_fields': 2,
         'rule': _AGG_RULE + '; reference partition = classes of the extracted canonical key canon_sig',
@@ -61,6 +61,7 @@ PROPS = {
     },
 
     'C15': {
+        'extra_props': ['C06b'],
         'ops': [('names', 1500, 40000)],
         'corr': ['corr:names', 'corr:panic'],
         'prop': ['C15'],
@@ -92,6 +93,7 @@ PROPS = {
                 'the error must be nil, the text before must be forwarded and the text after handed back',
     },
     'C02': {
+        'extra_props': ['C02b'],
         'ops': [('scan', 400, 20000, ('-mix', 'c02')), ('scan', 250, 10000, ('-mix', 'junk')), ('scan', 150, 5000, ('-mix', 'c08')), ('scan', 300, 20000, ('-mix', 'c03')), ('pp', 40, 2000)],
         'corr': ['corr:fwd', 'corr:rest', 'corr:suffix', 'corr:writes', 'corr:panic', 'corr:err', 'corr:pp:plain', 'corr:pp-exit:plain'],
         'prop': ['C02'],
@@ -102,6 +104,7 @@ PROPS = {
                 'remainder = the rest), the known finding K1 matched narrowly',
     },
     'C03': {
+        'extra_props': ['C02b'],
         'ops': [('scan', 1500, 150000, ('-mix', 'c03')), ('scan', 200, 10000, ('-mix', 'c02')), ('scanseq', 60, 3000), ('pp', 30, 2000), ('aggregate', 300, 20000), ('html', 100, 5000), ('scan', 1000, 14424, ('-mix', 'kinds'))],
         'corr': ['corr:panic', 'corr:snap', 'corr:err', 'corr:seq'],
         'prop': ['C03'],
@@ -181,7 +184,7 @@ PROPS = {
     },
     'C14': {
         'race_driver': True,
-        'ops': [('alias', 400, 20000), ('aggregate', 500, 20000)],
+        'ops': [('alias', 400, 20000), ('aggregate', 500, 20000), ('guess', 60, 2000)],
         'corr': ['corr:alias', 'corr:panic'],
         'prop': ['C14'],
         'nontrivial': ['ops='],
@@ -213,7 +216,8 @@ PROPS = {
                 'deep recursion, short-lived goroutines being created) scanned by implementation and model under random delivery: no error, one goroutine per header line (independent count), known goroutines with their states, frames and creator',
     },
     'C06': {
-        'ops': [('aggregate', 1200, 40000), ('guess', 80, 3000), ('pp', 40, 2000), ('html', 100, 3000), ('names', 300, 5000)],
+        'extra_props': ['C06b'],
+        'ops': [('aggregate', 1200, 40000), ('guess', 80, 3000), ('pp', 40, 2000), ('html', 100, 3000), ('names', 300, 5000), ('scan', 250, 8000, ('-mix', 'c02'))],
         'corr': ['corr:order', 'corr:sig', 'corr:ids', 'corr:guess', 'corr:pp:plain', 'corr:names', 'corr:panic'],
         'prop': ['C06'],
         'nontrivial': ['multi', 'resolved', 'blocks=', 'attrs=', 'named', 'pf='],
